@@ -10,7 +10,7 @@ META = {
     "separator positions (3^k) for a route family of each hop count; auto_slot shortcuts through parse_connection_path and the "
     "three driver constructors. Invalid strings: every single deletion / duplication / replacement of a segment or separator "
     "of each valid family member, unknown aliases, links 256/-1/empty/partial quads, TCP ports 0/65535/65536/-1/non-numeric/empty. "
-    "Histories: results of earlier parses mutated by the caller; every ordered pair of (string, entry point in {parse with/without slot shortcut, "
+    "Dangling, doubled and leading separators with and without the slot shortcut. Histories: results of earlier parses mutated by the caller; every ordered pair of (string, entry point in {parse with/without slot shortcut, "
     "CIPDriver, LogixDriver, SLCDriver}) over 7 strings, the second call judged as if made alone. Oracle: reference grammar parser -> (host, port, route); route bytes == reference bytes and parse back (C09 parser). "
     "distinct = distinct string.",
     "explanation": "bounded-exhaustive enumeration of the path grammar and its single-edit neighbourhood",
@@ -179,8 +179,18 @@ def run_shard(shard, tier, seed):
                 for hops in (1, 2, 3):
                     for segs in fam[hops]:
                         expect_valid(rep, mk(host, tcp, segs, ["/"] * len(segs)), host, tcp, segs, True, "auto-slot/route")
-                for bad in ("256", "-1", "x", "1.2.3"):
+                for bad in ("256", "-1", "x", "1.2.3", "300", "65535", "65536", "0x3", "3 ", " 3", "+3", "3.0"):
                     expect_invalid(rep, mk(host, tcp, [bad], ["/"]), True, "auto-slot-bad-slot")
+                # dangling and doubled separators: an empty segment is not a slot, a port or a link
+                for sep in SEPS:
+                    for auto in (True, False):
+                        expect_invalid(rep, mk(host, tcp, [], []) + sep, auto, "dangling-separator")
+                        expect_invalid(rep, mk(host, tcp, [], []) + sep + sep, auto, "dangling-separator")
+                        expect_invalid(rep, mk(host, tcp, ["3"], [sep]) + sep, auto, "dangling-separator")
+                        expect_invalid(rep, mk(host, tcp, [], []) + sep + sep + "3", auto, "empty-segment")
+                        for segs in fam[1][:3] + fam[2][:2]:
+                            expect_invalid(rep, mk(host, tcp, segs, [sep] * len(segs)) + sep, auto, "dangling-separator")
+                            expect_invalid(rep, mk(host, tcp, segs, [sep] + [sep + sep] * (len(segs) - 1)), auto, "empty-segment")
     elif k == "edits":
         for hops, routes in fam.items():
             for segs in routes:
